@@ -131,6 +131,7 @@ pub fn generate(kind: &str, seed: u64, run: u64, thorough: bool) -> Scenario {
         threads,
         sched_seed: tr.next_u64(),
         shared_doc: kind == "threads" && tr.chance(1, 2),
+        engine_seams: kind == "threads" && tr.chance(1, 2),
         ..Default::default()
     }
 }
@@ -291,7 +292,7 @@ pub fn execute(sc: &Scenario) -> Outcome {
                         }
                     }));
                 }
-                sched.run(bodies, 64 << 20);
+                sched.run(bodies, 64 << 20, sc.engine_seams);
                 stats.add("sched_decisions", sched.trace().len() as u64);
                 stats.add("context_switches", sched.switches());
                 for f in shared_ctx.fired.lock().unwrap().iter() {
